@@ -9,6 +9,7 @@ import (
 
 	"github.com/rpcpool/yellowstone-faithful/compactindexsized"
 	old_faithful_grpc "github.com/rpcpool/yellowstone-faithful/old-faithful-proto/old-faithful-grpc"
+	"google.golang.org/grpc"
 )
 
 // C03.epochblock — the real (*Epoch).GetBlock over the keyless-index model: for every requested
@@ -103,6 +104,51 @@ func VerifC03GrpcBlock() {
 		verifAssert(resp != nil, "C03.grpcblock: nil response without error")
 		verifAssert(resp.Slot == q, "C03.grpcblock: response carries the block of a different slot")
 		verifAssert(archived == 1, "C03.grpcblock: a block is returned for a slot that is not archived")
+	}
+	verifReach("end")
+}
+
+type verifC03BlockStream struct {
+	grpc.ServerStream
+	sent []*old_faithful_grpc.BlockResponse
+}
+
+func (s *verifC03BlockStream) Context() context.Context { return context.Background() }
+func (s *verifC03BlockStream) Send(b *old_faithful_grpc.BlockResponse) error {
+	s.sent = append(s.sent, b)
+	return nil
+}
+
+// C03.stream — the real gRPC StreamBlocks over a range of `span` consecutive slots (symbolic start):
+// every block that is sent is the block of a slot of the range that is archived, slots are strictly
+// increasing, and skipped slots / slots of epochs that are not loaded are passed over.
+func VerifC03Stream() {
+	ne := verifParam("epochs", 1)
+	nb := 1 + verifChoice("nblocks", verifParam("maxblocks", 2))
+	multi, eps := verifC03Multi(ne, nb, 0)
+	start := verifU64("start")
+	span := uint64(verifParam("span", 2))
+	verifAssume(start < 1<<40)
+	end := start + span - 1
+	st := &verifC03BlockStream{}
+	err := multi.StreamBlocks(&old_faithful_grpc.StreamBlocksRequest{StartSlot: start, EndSlot: &end}, st)
+	verifAssert(uint64(len(st.sent)) <= span, "C03.stream: more blocks sent than slots in the range")
+	prev := uint64(0)
+	for i, b := range st.sent {
+		verifAssert(b.Slot >= start && b.Slot <= end, "C03.stream: a block outside the requested range is sent")
+		verifAssert(verifC03Archived(eps, b.Slot) == 1, "C03.stream: a block is sent for a slot that is not archived")
+		if i > 0 {
+			verifAssert(b.Slot > prev, "C03.stream: the same or an earlier slot is sent again")
+		}
+		prev = b.Slot
+	}
+	if err == nil && !verifC03AnyCollision(eps) {
+		// every archived slot of the range was sent
+		n := uint64(0)
+		for s := start; s <= end; s++ {
+			n += verifC03Archived(eps, s)
+		}
+		verifAssert(uint64(len(st.sent)) == n, "C03.stream: an archived slot of the range is missing from the stream")
 	}
 	verifReach("end")
 }
